@@ -4,7 +4,7 @@ from __future__ import annotations
 import ast
 
 from sa.model import AnalysisError, calls_in
-from sa.paths import function_paths, end_kind, consistent
+from sa.paths import function_paths, end_kind, consistent, must_raise
 from sa.util import U, writes_of, Env, call_is
 
 EXPLANATION = (
@@ -190,6 +190,9 @@ def run(ctx):
         if any((t == "amount != int(amount)" and v) or (t == "amount == int(amount)" and not v) for t, v in cs) and end_kind(path) == "raise":
             if not any(U(c.func) == "self._change_binning" for s in path if s[0] == "stmt" for c in calls_in(s[1])):
                 okint = True
+    n_a, off_a = must_raise(mb.node, lambda e: U(e) == "amount != int(amount)", when=True)
+    n_b, off_b = must_raise(mb.node, lambda e: U(e) == "amount == int(amount)", when=False)
+    okint = okint and n_a + n_b >= 1 and not off_a and not off_b
     ctx.check(okint, "C10.c", "merge_bins:integral-amount", "amount != int(amount) -> ValueError before anything changes",
               "a non-integral amount is no longer refused before the merge", mb.where)
     ab = BB.methods.get("apply_bin_map")
@@ -219,6 +222,8 @@ def run(ctx):
               "(e.g. `>` instead of `!=`)", ab.where)
     ctx.check(first_ok and later_ok, "C10.c", "apply_bin_map:run-edges", "first bin of a run sets both edges, later bins move the right edge only",
               "a merged bin no longer reaches from the run's first left edge to its last right edge", ab.where)
+    n_mr, off_mr = must_raise(ab.node, lambda e: U(e) == "np.any(np.isnan(bins))", when=True)
+    nan_ok = nan_ok and n_mr >= 1 and not off_mr
     ctx.check(nan_ok, "C10.c", "apply_bin_map:complete", "an incomplete map (unfilled new bin) is refused", "incomplete maps are not refused", ab.where)
     ln = [n for n in ast.walk(ab.node) if isinstance(n, ast.Assign) and U(n.targets[0]) == "length"]
     ctx.check(any(U(n.value) == "max((item[1] for item in bin_map)) + 1" for n in ln), "C10.c", "apply_bin_map:length",
